@@ -162,7 +162,7 @@ func Build(config string) core.BuildFunc {
 		h := &harness{w: w, actionsUsed: map[string]int{}}
 		h.sc = genScenario(w.T, config == "faulty")
 		sc := h.sc
-		h.r = rig.New(w, rig.Opts{Active: sc.Active, Equip: sc.Equip, T3: sc.T3, T6: sc.T6, T7: 30 * time.Second,
+		h.r = rig.New(w, rig.Opts{TraceTraffic: w.T.Choose("trace", 4) == 0, Active: sc.Active, Equip: sc.Equip, T3: sc.T3, T6: sc.T6, T7: 30 * time.Second,
 			Linktest: sc.Linktest, BackoffInit: 100 * time.Millisecond, T5: time.Second})
 		r := h.r
 		r.N.Seg = func(p *simnetPipe, n int) []segPlan { return h.seg(n) }
